@@ -9,10 +9,11 @@ from props import restore_common as rc
 LEVEL = 'proof'
 
 CORRUPTIONS = ['none', 'drop-entry-unique', 'drop-entry-extern', 'drop-entry-empty', 'drop-entry-dir', 'swap-entries', 'add-entry',
-               'flip-byte', 'truncate-data-entry', 'alter-hash', 'alter-size-unique', 'alter-size-extern', 'status-to-extern', 'status-to-unique',
+               'flip-byte', 'truncate-data-entry', 'alter-hash', 'alter-size-unique', 'alter-size-unique-up', 'alter-size-extern', 'status-to-extern', 'status-to-unique',
                'alter-path', 'remove-line', 'add-line', 'dup-line-other-hash', 'truncate-data-file', 'delete-data', 'delete-meta', 'garbage-meta',
                'delete-earlier-backup', 'traversal-entry-dotdot', 'traversal-entry-abs', 'traversal-manifest-rel', 'traversal-manifest-dotdot', 'traversal-manifest-add-dotdot', 'traversal-manifest-add-dotdot',
-               'hardlink-entry', 'drop-entry-earlier-unique', 'extern-line-onto-own-path', 'dup-archive-entry', 'extern-line-onto-own-path']
+               'hardlink-entry', 'drop-entry-earlier-unique', 'extern-line-onto-own-path', 'dup-archive-entry', 'extern-line-onto-own-path',
+               'flip-byte-earlier-unique', 'flip-byte-earlier-unique']
 
 
 def apply_corruption(rng, w, kind, target_dir, group_dir):
@@ -95,6 +96,9 @@ def apply_corruption(rng, w, kind, target_dir, group_dir):
         r = rng.choice(uniq + ext); r['hash'] = 'cd' * 64
     elif kind == 'alter-size-unique' and uniq:
         r = rng.choice(uniq); r['size'] = r['size'] + rng.choice([-1, 1]) if r['size'] > 1 else r['size'] + 1
+    elif kind == 'alter-size-unique-up' and uniq:
+        # the record announces more bytes than the archive entry holds
+        r = rng.choice(uniq); r['size'] = r['size'] + rng.choice([1, 500])
     elif kind == 'alter-size-extern' and ext:
         r = rng.choice(ext); r['size'] = r['size'] + 1
     elif kind == 'status-to-extern' and uniq:
@@ -134,6 +138,19 @@ def apply_corruption(rng, w, kind, target_dir, group_dir):
         open(os.path.join(target_dir, 'metadata.zst'), 'wb').write(b'garbage'); return True
     if kind == 'delete-earlier-backup' and earlier:
         shutil.rmtree(os.path.join(group_dir, rng.choice(earlier))); return True
+    if kind == 'flip-byte-earlier-unique' and earlier and ext:
+        # in an earlier backup, one byte of the data an extern record of the target refers to is changed (same length)
+        h = rng.choice(ext)['hash']
+        for b in reversed(earlier):
+            try:
+                er = store.read_manifest(os.path.join(group_dir, b))
+            except Exception:
+                continue
+            src = [x for x in er if x['unique'] and x['hash'] == h]
+            if src:
+                p = src[0]['path']
+                rc.rewrite_archive(os.path.join(group_dir, b), lambda ms: [(m, (d[:-1] + bytes([d[-1] ^ 0x40])) if ('/' + m.name == p and d) else d) for m, d in ms])
+                return True
     if kind == 'drop-entry-earlier-unique' and earlier and ext:
         # remove from an earlier backup the unique entry an extern of the target needs
         h = rng.choice(ext)['hash']
@@ -171,7 +188,8 @@ def one_storage(ctx, hid, seed, ncor):
         if not groups:
             return out
         for c in range(ncor):
-            kind = 'none' if c == 0 else rng.choice(CORRUPTIONS[1:])
+            # (every kind gets its turns: the kinds rotate over storages and copies; which backup, file and byte is random)
+            kind = 'none' if c == 0 else CORRUPTIONS[1:][(hid * (ncor - 1) + c - 1) % (len(CORRUPTIONS) - 1)]
             croot = os.path.join(w.base, 'cor%d' % c)
             shutil.copytree(w.root, croot, symlinks=True)
             g = rng.choice(groups)
@@ -180,6 +198,21 @@ def one_storage(ctx, hid, seed, ncor):
             if not backups:
                 continue
             tname = rng.choice(backups[-2:])
+            # kinds that alter files stored by the target itself need a target that stores some
+            need = 2 if kind == 'extern-line-onto-own-path' else 1 if kind in ('dup-archive-entry', 'flip-byte', 'truncate-data-entry', 'alter-size-unique',
+                                                                              'alter-size-unique-up', 'status-to-extern', 'dup-line-other-hash', 'drop-entry-unique') else 0
+            if need:
+                def nuniq(d_):
+                    try:
+                        return sum(1 for x in store.read_manifest(d_) if x['unique'])
+                    except Exception:
+                        return 0
+                if nuniq(os.path.join(gdir, tname)) < need:
+                    able = [(g_, b_) for g_ in groups for b_ in sorted(os.listdir(os.path.join(croot, g_)))
+                            if store.BACKUP_RE.match(b_) and nuniq(os.path.join(croot, g_, b_)) >= need]
+                    if able:
+                        g, tname = rng.choice(able)
+                        gdir = os.path.join(croot, g)
             tdir = os.path.join(gdir, tname)
             if not apply_corruption(rng, w, kind, tdir, gdir):
                 shutil.rmtree(croot); continue
@@ -290,6 +323,49 @@ def existing_target(ctx):
     return n
 
 
+def links_leading_outside(ctx):
+    """The backup holds symbolic links to a file and a directory that exist outside the restore directory: restoring the
+    links (their owner, their times) must not touch what they point to."""
+    import stat as st_
+    n = 0
+    for i in range(2 if ctx.tier == 'quick' else 8):
+        rng = random.Random(ctx.seed * 17 + i)
+        w = hist.World(ctx, 4100 + i, rng)
+        try:
+            outside = os.path.join(os.path.realpath(w.base), 'outside-of-everything')
+            os.makedirs(os.path.join(outside, 'dir'))
+            secret = os.path.join(outside, 'secret.key')
+            open(secret, 'w').write('do not touch')
+            os.chmod(secret, 0o600); os.chmod(os.path.join(outside, 'dir'), 0o700)
+            os.utime(secret, ns=(10**18, 10**18)); os.utime(os.path.join(outside, 'dir'), ns=(10**18, 10**18))
+            os.makedirs(os.path.join(w.items[0], 'conf'))
+            w.write(os.path.join(w.items[0], 'conf', 'app.conf'), 1, 100)
+            os.symlink(secret, os.path.join(w.items[0], 'conf', 'key'))
+            os.symlink(os.path.join(outside, 'dir'), os.path.join(w.items[0], 'conf', 'd'))
+            os.symlink(os.path.relpath(secret, os.path.join(w.items[0], 'conf')), os.path.join(w.items[0], 'conf', 'rel'))
+            if i % 2:
+                os.symlink('app.conf', os.path.join(w.items[0], 'conf', 'inner'))
+            r = w.backup(advance=5)
+            if r.rc != 0:
+                continue
+            def snap():
+                return [(p, st_.S_IMODE(os.lstat(p).st_mode), os.lstat(p).st_uid, os.lstat(p).st_mtime_ns) for p in (secret, os.path.join(outside, 'dir'))] + [open(secret).read()]
+            before = snap()
+            bdir = os.path.join(w.root, store.group_name(w.now), store.backup_name(w.now))
+            rdir = os.path.join(w.base, 'restored-links')
+            rr = store.run_vsb(ctx, ['-c', w.cfg, 'restore', bdir, rdir])
+            after = snap()
+            n += 1
+            case = {'scenario': 'links-leading-outside', 'index': i}
+            if before != after:
+                ctx.violation('property', 'restore (exit %s) changed what a restored symbolic link points to, outside the restore directory: %s -> %s' % (rr.rc, before[:2], after[:2]), {'case': case})
+            elif rr.rc != 0:
+                ctx.violation('property', 'restore of a backup holding symbolic links to existing files fails: %s' % rr.errors()[:2], {'case': case})
+        finally:
+            w.cleanup()
+    return n
+
+
 def oracle(case):
     if case['storage_modified']:
         return 'restore modified the backup storage'
@@ -358,7 +434,7 @@ def check(ctx):
         'rule': 'storages from random histories; for each, the uncorrupted restore plus single corruptions (%s) of the target backup or its group, produced by re-encoding archives/manifests; '
                 'non-trivial = a corrupted case; distinct by (corruption, decoded group, target)' % ', '.join(CORRUPTIONS[1:]),
         'samples': [{'kind': cases[0]['kind'], 'target': cases[0]['request']['target'], 'rc': cases[0]['rc']}],
-        'correspondence': st, 'corruption_outcomes': kinds, 'existing_target_cases': existing_target(ctx), 'truncated_tail_cases': truncated_tail(ctx),
+        'correspondence': st, 'corruption_outcomes': kinds, 'existing_target_cases': existing_target(ctx), 'truncated_tail_cases': truncated_tail(ctx), 'links_leading_outside_cases': links_leading_outside(ctx),
         'disagreements_checked': st['cases'],
     })
     ctx.assumptions += ['restore runs as root (ownership applied); symlink-in-the-middle traversal is out of scope (as in the property)',
